@@ -500,9 +500,9 @@ def obligations(tier):
             describe="two trials: loop continuation, catch, propagation, callbacks once per trial, exact trial count"))
     else:
         obs.append(Obligation(
-            "optimize-2trials-faults", make_optimize_body([1, 2], [1, 2, 3], XSHAPES, 2, True, True), setup, CODE,
-            bounds=dict(n_trials=[1, 2], n_objectives=[1, 2, 3], result_shapes=len(SHAPES), reports="0..2", sampler_fault=True, stop=True),
-            shard_depth=6, budget_s=1500, classify=classify, require_reach=["complete", "infeasible", "pruned", "exception"],
+            "optimize-2trials-faults", make_optimize_body([1, 2], [1, 2, 3], SHAPES, 1, True, True), setup, CODE,
+            bounds=dict(n_trials=[1, 2], n_objectives=[1, 2, 3], result_shapes=len(SHAPES), reports="0..1", sampler_fault=True, stop=True),
+            shard_depth=6, budget_s=2400, classify=classify, require_reach=["complete", "infeasible", "pruned", "exception"],
             describe="one or two trials, every behaviour symbolic incl. sampler after_trial faults"))
         red = ["none", "float", "nan", "str_num", "list2", "bigint", "empty"]
         obs.append(Obligation(
